@@ -186,30 +186,10 @@ func (r *e2run) queueByName(n string) *sim.Queue {
 	return nil
 }
 
-// deliverPodAdds delivers the Pod events of the controller cache up to and
-// including the last ADDED one. This excludes, by construction, the recorded
-// finding "task declared lost / duplicated / finalizer dropped because the Pod
-// cache lags behind a Pod creation" (known-findings.json: E2-podcache-lag);
-// the number of exclusions is counted.
-func (r *e2run) deliverPodAdds() {
-	evs := r.w.API.Pending["ctrl"][sim.ResPods]
-	last := -1
-	for i, ev := range evs {
-		if ev.Type == "ADDED" {
-			last = i
-		}
-	}
-	if last >= 0 {
-		r.w.Deliver("ctrl", sim.ResPods, last+1)
-		r.excluded++
-	}
-}
-
-// stepQueue runs one reconcile step; for the job controller it first applies
-// the pod-ADDED exclusion and tells the monitors which Job is about to sync.
+// stepQueue runs one reconcile step; for the job controller it first tells the
+// monitors which Job is about to sync.
 func (r *e2run) stepQueue(q *sim.Queue) {
 	if q == r.w.QJob && q.Len() > 0 {
-		r.deliverPodAdds()
 		if r.mon != nil {
 			r.mon.beforeJobSync(q.Keys()[0])
 		}
@@ -285,6 +265,13 @@ func (r *e2run) apply(op E2Op) {
 	case "step": // A=queue name
 		if q := r.queueByName(op.A); q != nil {
 			r.stepQueue(q)
+		}
+	case "stepRaw": // one reconcile step without any generator-side exclusion
+		if q := r.queueByName(op.A); q != nil {
+			if q == w.QJob && q.Len() > 0 && r.mon != nil {
+				r.mon.beforeJobSync(q.Keys()[0])
+			}
+			w.StepQueue(q)
 		}
 	case "tick":
 		w.CronTick()
@@ -614,12 +601,6 @@ func genOpsOn(t *rapid.T, r *e2run, tr *E2Trace, p e2Profile, _ int) {
 					Verb:  rapid.SampledFrom([]string{"", "create", "update", "updateStatus", "delete"}).Draw(t, "fverb"),
 					Nth:   rapid.IntRange(1, 3).Draw(t, "fnth"), Count: rapid.IntRange(1, 3).Draw(t, "fcount"),
 					Kind: rapid.SampledFrom([]sim.FaultKind{sim.FaultReject, sim.FaultTimeout, sim.FaultConflict, sim.FaultCommitTimeout}).Draw(t, "fkind"),
-				}
-				// Excluded by construction (known finding E2-start-commit-timeout): a start write that
-				// commits but is reported as failed. Counted by the run.
-				if f.Kind == sim.FaultCommitTimeout && (f.Actor == "" || f.Actor == "jobqueue") && (f.Verb == "" || f.Verb == "updateStatus") {
-					f.Actor = "job"
-					f.Name = "excluded"
 				}
 				return E2Op{K: "fault", F: f}
 			})
